@@ -27,6 +27,18 @@ R2 == { <<R(F("cp", <<X>>), <<"vars", "S", "E">>, Lit("none", <<0, 0>>, <<"vars"
           R(F("out", <<X>>), <<"none">>, Lit2(op, w, <<"none">>))>> : op \in {"dm", "bm", "dp", "bp"}, w \in {<<0, 0>>, <<0, 2>>, <<1, 3>>} }
       \cup { <<R(F("cp", <<X>>), <<"now">>, Lit("bm", <<0, 1>>, <<"none">>)),
                R(F("pt", <<X, Var("T")>>), <<"none">>, Lit2("none", <<0, 0>>, <<"var1", "T">>))>> }
+\* joins: a second temporal literal over tc whose annotation shares variables with the first one (both bound: the
+\* stored interval must be exactly the one named; one bound: same start or same end), or carries an operator
+A3 == F("tc", <<Nm("/a")>>)
+TFJ == {<<A1, iv>> : iv \in {<<0, 2>>, <<1, 3>>, <<2, 2>>, <<3, 5>>, <<0, 5>>}} \cup {<<A2, iv>> : iv \in {<<1, 1>>, <<0, 4>>}}
+       \cup {<<A3, iv>> : iv \in {<<0, 2>>, <<1, 3>>, <<1, 2>>, <<2, 2>>, <<0, 5>>, <<3, 4>>}} \cup {<<F("tc", <<Nm("/b")>>), iv>> : iv \in {<<1, 1>>, <<0, 5>>}}
+LitC(op, w, ann) == [op |-> op, w |-> w, atom |-> F("tc", <<X>>), ann |-> ann]
+RJ(h, ht, l1, l2) == [h |-> h, ht |-> ht, lit2 |-> l2] @@ l1
+R3 == { <<RJ(F("m", <<X>>), ht, Lit("none", <<0, 0>>, <<"vars", "S", "E">>), LitC("none", <<0, 0>>, a2))>> :
+          ht \in {<<"none">>, <<"vars", "S", "E">>}, a2 \in {<<"vars", "S", "E">>, <<"vars", "S", "E2">>, <<"vars", "S2", "E">>, <<"vars", "S2", "E2">>, <<"none">>} }
+      \cup { <<RJ(F("m", <<X, Var("T")>>), <<"none">>, Lit("none", <<0, 0>>, <<"var1", "T">>), LitC("none", <<0, 0>>, a2))>> : a2 \in {<<"var1", "T">>, <<"vars", "T", "E">>, <<"vars", "S", "T">>} }
+      \cup { <<RJ(F("m", <<X>>), <<"none">>, Lit("none", <<0, 0>>, <<"vars", "S", "E">>), LitC(op, w, <<"none">>))>> : op \in {"dm", "bm", "dp", "bp"}, w \in {<<0, 1>>, <<1, 2>>} }
+      \cup { <<RJ(F("m", <<X>>), <<"none">>, Lit(op, <<0, 2>>, <<"none">>), LitC("none", <<0, 0>>, <<"vars", "S", "E">>))>> : op \in {"dm", "bp"} }
 \* C05 for temporal programs: several, possibly overlapping and nested, intervals of one atom on a 0..9 timeline
 \* (a long early interval that out-lasts later short ones, equal starts, equal ends, touching intervals)
 IVO == {<<0, 9>>, <<0, 5>>, <<0, 1>>, <<1, 2>>, <<1, 8>>, <<2, 3>>, <<3, 4>>, <<4, 4>>, <<5, 7>>, <<6, 9>>, <<8, 9>>, <<NEG, 3>>, <<2, POS>>}
